@@ -3,7 +3,9 @@
 `n_sequence_fields`, `n_unnamed_fields` can be rebound to a bool, an int subclass instance, a float, None or a str; engine and
 Python twin must still agree on recognition (is_structseq_class / is_structseq / is_structseq_instance) and on the outcome of
 structseq_fields (fields, or the exception type), and the engine must not read past the member table when
-n_sequence_fields is rebound to an exact int larger than the table or negative (a dying child is a C16 failure).  Every case runs in its own child interpreter, the rebinding is done before
+n_sequence_fields is rebound to an exact int larger than the table or negative (a dying child is a C16 failure).  Part 3: genuine heap struct-sequence types (PyStructSequence_NewType through
+ctypes, the call extension modules use) are classified and freed; ordinary classes that are then allocated at their addresses
+must get the answer of the Python twin (history independence of the engine cache).  Every case runs in its own child interpreter, the rebinding is done before
 optree sees the class (no cache history involved).  Exhaustive over the listed grid."""
 from ocv.bounded._extra import run_core
 
@@ -35,7 +37,63 @@ for name, arg in (('is_structseq_class', cls), ('is_structseq', cls), ('is_struc
 print('DONE')
 """
 
+REUSE = """
+import collections, ctypes, gc, sys
+import optree
+from optree import typing as T
+cxx = T.is_structseq_class.__cxx_implementation__
+twin = T.is_structseq_class.__python_implementation__
+class _Field(ctypes.Structure):
+    _fields_ = [('name', ctypes.c_char_p), ('doc', ctypes.c_char_p)]
+class _Desc(ctypes.Structure):
+    _fields_ = [('name', ctypes.c_char_p), ('doc', ctypes.c_char_p), ('fields', ctypes.POINTER(_Field)), ('n_in_sequence', ctypes.c_int)]
+_new = ctypes.pythonapi.PyStructSequence_NewType
+_new.restype = ctypes.py_object
+_new.argtypes = [ctypes.POINTER(_Desc)]
+KEEP = []
+def new_ss(name, names):
+    fields = (_Field * (len(names) + 1))()
+    for i, n in enumerate(names):
+        fields[i].name = n.encode(); fields[i].doc = None
+    desc = _Desc(name.encode(), None, fields, len(names))
+    KEEP.append((fields, desc))
+    return _new(ctypes.byref(desc))
+def plain(k):
+    if k % 3 == 0:
+        return type('Plain%d' % k, (), {'__slots__': ('a', 'b')})
+    if k % 3 == 1:
+        return type('PlainTuple%d' % k, (tuple,), {})
+    return collections.namedtuple('PlainNT%d' % k, ('a', 'b'))
+shift = int(sys.argv[1])
+dead, reused, k = set(), 0, shift
+for rnd in range(12):
+    batch = [new_ss('m.Pair%d_%d' % (rnd, i), ('first', 'second')) for i in range(8)]
+    for c in batch:
+        if cxx(c) is not True or twin(c) is not True:
+            print('DISAGREE live heap struct sequence type', c, 'engine', cxx(c), 'python', twin(c))
+        dead.add(id(c))
+    del batch, c
+    gc.collect()
+    pinned = []
+    for _ in range(40):
+        fresh = []
+        for _ in range(64):
+            c = plain(k); k += 1
+            if id(c) in dead:
+                reused += 1
+                a, b = cxx(c), twin(c)
+                if a != b:
+                    print('DISAGREE class', c.__name__, 'allocated at the address of a freed struct sequence type: engine', a, 'python', b)
+                dead.discard(id(c))
+            fresh.append(c)
+        pinned = fresh
+print('REUSED', reused)
+print('DONE')
+"""
+
 def cases(tier):
+    for shift in range(3 if tier == 'quick' else 12):
+        yield ('reuse', shift)
     for c in ('sched_param', 'terminal_size', 'struct_time', 'struct_rusage'):
         for attr in ('n_fields', 'n_sequence_fields', 'n_unnamed_fields'):
             for v in ('True', 'False', 'intsub', 'float', 'None', 'str', 'same'):
@@ -45,6 +103,15 @@ def cases(tier):
             yield (c, 'n_sequence_fields', v)
 
 def check(spec):
+    if spec[0] == 'reuse':
+        p = subprocess.run([sys.executable, '-c', REUSE, str(spec[1])], capture_output=True, text=True, timeout=300)
+        bad = []
+        if p.returncode != 0 or 'DONE' not in p.stdout:
+            bad.append(('C18.unexpected_exception', f'address-reuse child {spec!r} exited {p.returncode}: {p.stderr[-400:]}'))
+        for line in p.stdout.splitlines():
+            if line.startswith('DISAGREE'):
+                bad.append(('C18.answers_independent_of_history', line[9:]))
+        return bad
     c, attr, v = spec
     p = subprocess.run([sys.executable, '-c', CHILD, c, attr, v], capture_output=True, text=True, timeout=120)
     bad = []
@@ -64,5 +131,7 @@ def check(spec):
 def run(tier, seed):
     return run_core('c18_extra', CORE, tier,
                     scope='4 mutable struct-sequence types x 3 counters x 7 rebound values (bool, int subclass, float, None, str, unchanged) + n_sequence_fields rebound to 0 / 1 / 1000 / -1 / -100, '
-                          '6 twin calls each, one child interpreter per case',
+                          '6 twin calls each, one child interpreter per case; 3 (quick) / 12 (thorough) address-reuse histories: 96 heap struct-sequence '
+                          'types made with PyStructSequence_NewType (ctypes), classified, freed, then ordinary classes allocated until they '
+                          'land on the freed addresses',
                     rule='one evaluation = one rebinding in a fresh interpreter, all six twin pairs compared')
